@@ -142,8 +142,16 @@ def model_stage(pid, m, tier, seed):
     if rc not in (0,) or errtxt:
         if not (sim and rc in (0, 124)):
             tool_error(f"TLC model run {name} failed rc={rc}: {' | '.join(errtxt[:3])} (see {out_path})")
-    if fails:
-        tool_error(f"spec-level property failure in model {name}: {fails[0]} — the model is wrong, not the code")
+    # a property failure on the *model* is a modelling error (exit 2) unless it reproduces a recorded genuine finding
+    # (the implementation-shaped model mirrors the code, defects included; replay then shows zero drift)
+    known = [k for k in load_known() if k.get("status") == "known"]
+    unexplained = []
+    for f in fails:
+        v = {"property": f.get("property"), "clause": f.get("clause"), "info": f.get("info"), "ev": None}
+        if not any(k.get("property") == v["property"] and sig_match({kk: vv for kk, vv in k.get("signature", {}).items() if kk != "ev"}, v) for k in known):
+            unexplained.append(f)
+    if unexplained:
+        tool_error(f"spec-level property failure in model {name}: {unexplained[0]} — the model is wrong, not the code")
     log(f"model {name}: {states} states generated, {distinct} distinct, {nedges} edges in {dt:.1f}s")
     return {"name": name, "states": distinct, "transitions": states, "edges": nedges, "edges_path": edges_path, "wall_s": dt,
             "cfg": cfg, "module": m["module"]}
@@ -373,7 +381,8 @@ def main():
             violations.append(v)
 
     for kid, kf in known_hits.items():
-        print(f"KNOWN-FINDING: property={pid} {kf.get('description','')}", flush=True)
+        ln = kf.get("line", "")
+        print(ln if ln.startswith("KNOWN-FINDING:") else f"KNOWN-FINDING: property={pid} {kf.get('description','')}", flush=True)
 
     # evidence
     tot_events = nontriv = 0
